@@ -2,7 +2,7 @@ from checks import rapid, plain, REPLAY
 
 CHECK = dict(
     pkg="c05", level="exploration",
-    rule="one to two uploads per case through RegClient.BlobPut (or RegClient.BlobCopy from a layout / another registry / another repository incl. cross-repository mount, "
+    rule="(session 3: a front end that answers every data-carrying PATCH / replayable PUT with 307/308 first) one to two uploads per case through RegClient.BlobPut (or RegClient.BlobCopy from a layout / another registry / another repository incl. cross-repository mount, "
          "which reaches BlobPut with a blob.Reader): chunk size c 1..64 (rarely 8-64 KiB or the 1 MiB default) and single-PUT limit through reg.WithBlobSize, reg.WithBlobLimit (either option order) "
          "and/or config.Host BlobChunk/BlobMax "
          "x blob length on every boundary of c, of the server-raised chunk size and of the limit (0, 1, c-1, c, c+1, 2c-1, 2c, 2c+1, 3c+r, max-1, max, max+1, >max) "
